@@ -50,6 +50,28 @@ Theorem C39_response_to_own_caller : forall s from id tag,
 Proof. exact response_to_own_caller. Qed.
 Print Assumptions C39_response_to_own_caller.
 
+(** The 64-bit counter.  nextControlID is a Go uint64; the model's counter is
+    an unbounded N.  Along every run of fewer than 2^64 events the counter
+    never wraps (its value mod 2^64 is its value) and every id in use - own
+    or forwarded - is below 2^64, so the model and a wrapping counter agree
+    on every such run. *)
+Theorem C39_counter_fits_uint64 : forall evs me,
+  N.of_nat (length evs) < 2 ^ 64 ->
+  let s := crun_state (cinit me) evs in
+  c_next s mod 2 ^ 64 = c_next s /\
+  (forall id, In id (c_pending s) -> id < 2 ^ 64) /\
+  (forall id v, mget id (c_fwd s) = Some v -> id < 2 ^ 64).
+Proof. exact counter_fits_uint64. Qed.
+Print Assumptions C39_counter_fits_uint64.
+
+(** Every id handed out - to a forwarded request or to an own one - is the
+    successor of the counter: never the reserved value 0. *)
+Theorem C39_allocated_ids_are_counter_successors : forall s from id target path tag h fid rest target' tag',
+  (out_of (cstep s (CReq from id target path tag)) = [(h, MReq fid target rest tag)] -> fid = c_next s + 1) /\
+  (snd (cstep s (COriginate target' tag')) <> 0 -> snd (cstep s (COriginate target' tag')) = c_next s + 1).
+Proof. exact allocated_ids_nonzero. Qed.
+Print Assumptions C39_allocated_ids_are_counter_successors.
+
 (** Non-vacuity: the two scenarios that broke the pre-fix code now deliver
     every answer to its requester. *)
 Theorem C39_shared_transit_correct :
